@@ -137,13 +137,13 @@ func closeEnv() {
 // ---- a mock tree -----------------------------------------------------------------------
 
 type mockTree struct {
-	e      *mockEnv
-	w      World
-	id     string // tree id = root change id = prefix of all change ids of this tree
-	st     objecttree.Storage
-	tree   objecttree.ObjectTree
-	raw    []*treechangeproto.RawTreeChangeWithId // by node (raw[0] = nil)
-	aclId  string
+	e     *mockEnv
+	w     World
+	id    string // tree id = root change id = prefix of all change ids of this tree
+	st    objecttree.Storage
+	tree  objecttree.ObjectTree
+	raw   []*treechangeproto.RawTreeChangeWithId // by node (raw[0] = nil)
+	aclId string
 }
 
 // canonical change names, independent of the tree the world is materialised in:
@@ -549,15 +549,7 @@ func runX(c XCase) (out vstat.Outcome, err error) {
 		if err := rel.restrictionOfRef(what, seq); err != nil {
 			return err
 		}
-		if err := rel.completeView(what, seq, idsOf(re.held), limit); err != nil {
-			// Which changes a history view contains is not C06's business (only their order
-			// is); an incomplete view is counted, not failed - see SENSITIVITY.md, side finding.
-			classes["history-view-incomplete"] = true
-			if os.Getenv("VERIF_DEBUG") != "" {
-				fmt.Println("HISTORY-INCOMPLETE:", err)
-			}
-		}
-		return nil
+		return rel.completeView(what, seq, idsOf(re.held), limit)
 	}
 	if err := hist("the full history tree", nil, false, nil); err != nil {
 		return out, err
